@@ -86,3 +86,49 @@ m("c03-bp-family-dropped", ["C03", "C12"], "osaca/parser/parser_x86att.py",
   """            "BP": ["RBP", "EBP", "BP", "BPL"],\n""", "")
 m("c03-vector-alias", ["C03", "C12"], "osaca/parser/parser_x86att.py",
   "                if reg_a_name[1:] == reg_b_name[1:]:", "                if reg_a_name[2:] == reg_b_name[2:] and reg_a_name[0] == reg_b_name[0]:")
+m("c04-drop-terminal", ["C04"], "osaca/semantics/kernel_dg.py",
+  "            total = acc_end + self._get_node_by_lineno(int(node)).latency",
+  "            total = acc_end")
+m("c04-min-pred", ["C04"], "osaca/semantics/kernel_dg.py",
+  "                if candidate > acc:\n                    acc, pred = candidate, p",
+  "                if candidate < acc or pred is None:\n                    acc, pred = candidate, p")
+m("c04-ignore-load-edge", ["C04"], "osaca/semantics/kernel_dg.py",
+  "                    latency=instruction_form.latency - instruction_form.latency_wo_load,",
+  "                    latency=0.0,")
+m("c05-offset-off-by-one", ["C05", "C14"], "osaca/semantics/kernel_dg.py",
+  "                        dg, instr.line_number, instr.line_number + offset\n                    )\n                )",
+  "                        dg, instr.line_number, instr.line_number + offset + 1\n                    )\n                )")
+m("c05-dedupe-latency-only", ["C05"], "osaca/semantics/kernel_dg.py",
+  """            if tuple(lat_path) in paths_set:
+                continue
+            paths_set.add(tuple(lat_path))""",
+  """            if lat_sum in paths_set:
+                continue
+            paths_set.add(lat_sum)""")
+m("c05-no-mapback", ["C05", "C14"], "osaca/semantics/kernel_dg.py",
+  """                if s >= offset:
+                    s -= offset
+                lat_path.append((s, edge_lat))""",
+  """                lat_path.append((s if s < offset else s - offset + 0, edge_lat)) if s < offset else lat_path.append((s, edge_lat))""")
+m("c05-summary-min", ["C05", "C13"], "osaca/frontend.py",
+  """        if dep_dict:
+            longest_lcd = max(dep_dict, key=lambda ln: dep_dict[ln]["latency"])
+            lcd_sum = dep_dict[longest_lcd]["latency"]
+        return {""",
+  """        if dep_dict:
+            longest_lcd = min(dep_dict, key=lambda ln: dep_dict[ln]["latency"])
+            lcd_sum = dep_dict[longest_lcd]["latency"]
+        return {""")
+m("c14-scan-stops-at-boundary", ["C14", "C05"], "osaca/semantics/kernel_dg.py",
+  """        tmp_kernel = [] + kernel
+        for orig_iform in kernel:
+            temp_iform = copy.copy(orig_iform)
+            temp_iform.line_number += offset
+            tmp_kernel.append(temp_iform)""",
+  """        tmp_kernel = [] + kernel
+        for orig_iform in kernel[:-1]:
+            temp_iform = copy.copy(orig_iform)
+            temp_iform.line_number += offset
+            tmp_kernel.append(temp_iform)""")
+m("c14-dedupe-by-root", ["C14", "C05"], "osaca/semantics/kernel_dg.py",
+  "            lat_path.sort()\n", "            pass\n")
